@@ -93,6 +93,7 @@ class Conn(object):
         self.s2c = Pipe(net, "s2c")
         self.client_sock = None
         self.client_closed = False
+        self.client_closed_at = None
         self.server_closed = False
         self.so_error = 0
         self.sel_waiters = []
@@ -329,6 +330,7 @@ class SimSocket(object):
         conn = self.conn
         if conn is not None and not conn.client_closed:
             conn.client_closed = True
+            conn.client_closed_at = net.k.now
             net.log.append(("close", conn.id))
             if conn.state == "up":
                 if not self.shut_wr:
